@@ -269,8 +269,11 @@ package k8s
 //@   modifies LNb, LNo, LNl, LNby
 //@   ensures err == nil ==> named(nodes) && LNb == base(nodes) && LNo == off(nodes) && LNl == len(nodes)
 //@   ensures err == nil ==> (forall s string :: LNby[s] != nil ==> (exists i :: 0 <= i && i < len(nodes) && nodes[i] == LNby[s]))
+// nScans counts the scans started (every scan begins by listing the group's pods)
+//@ ghost nScans int
 //@ iface k8s.PodLister.List(l) (pods, err)
-//@   modifies LPb, LPo, LPl
+//@   modifies LPb, LPo, LPl, nScans
+//@   ensures nScans == old(nScans) + 1
 //@   ensures err == nil ==> (forall i :: 0 <= i && i < len(pods) ==> pods[i] != nil) && LPb == base(pods) && LPo == off(pods) && LPl == len(pods)
 
 //@ spec rlCPU(m ref) qty
